@@ -104,17 +104,18 @@ theorem final_step_is_generated_step (sc : SelConsts K) (nrows ncols : ℕ) (der
 
 /-- the Richardson error estimate of a row is at least `fact · |new[t+1] - new[t]|` -/
 theorem richErrGo_ge_diff (eps ten fact : K) (he : 0 ≤ eps) (ht : 0 ≤ ten) (hf : 0 ≤ fact) :
-    ∀ (new old : List K) (i : ℕ) (h : i < (richErrGo eps ten fact new old).length),
-      |new.getD (i + 1) 0 - new.getD i 0| * fact ≤ (richErrGo eps ten fact new old)[i]
+    ∀ (new old : List K) (i : ℕ) (h : i < (richErrGo (Num.abs : K → K) eps ten fact new old).length),
+      |new.getD (i + 1) 0 - new.getD i 0| * fact ≤ (richErrGo (Num.abs : K → K) eps ten fact new old)[i]
   | [], _, i, h => by simp [richErrGo] at h
   | [_], _, i, h => by simp [richErrGo] at h
   | _ :: _ :: _, [], i, h => by simp [richErrGo] at h
   | a :: b :: rest, o :: os, 0, _ => by
     simp only [richErrGo, List.getElem_cons_zero, List.getD_cons_succ, List.getD_cons_zero, num_abs]
-    have h2 := maxAbs_nonneg b a
+    have h2 : 0 ≤ maxNrm (Num.abs : K → K) b a :=
+      maxNrm_nonneg _ (fun c => by simp only [num_abs]; exact abs_nonneg c) b a
     have h3 := abs_nonneg (a - o)
     split_ifs
-    · have : 0 ≤ maxAbs b a * eps * fact * ten := by positivity
+    · have : 0 ≤ maxNrm (Num.abs : K → K) b a * eps * fact * ten := by positivity
       linarith
     · have : 0 ≤ |a - o| * fact := by positivity
       linarith
@@ -128,8 +129,8 @@ is at least `fact · (1 - q)` times the true error `|new[t] - L|`. -/
 theorem richErr_dominates_geometric (eps ten fact : K) (he : 0 ≤ eps) (ht : 0 ≤ ten) (hf : 0 ≤ fact)
     (L c q : K) (hq0 : 0 ≤ q) (hq1 : q ≤ 1) (new old : List K)
     (hnew : ∀ t < new.length, new.getD t 0 = L + c * q ^ t) (i : ℕ)
-    (h : i < (richErrGo eps ten fact new old).length) (hi : i + 1 < new.length) :
-    fact * (1 - q) * |new.getD i 0 - L| ≤ (richErrGo eps ten fact new old)[i] := by
+    (h : i < (richErrGo (Num.abs : K → K) eps ten fact new old).length) (hi : i + 1 < new.length) :
+    fact * (1 - q) * |new.getD i 0 - L| ≤ (richErrGo (Num.abs : K → K) eps ten fact new old)[i] := by
   have hge := richErrGo_ge_diff eps ten fact he ht hf new old i h
   have e0 := hnew i (by omega)
   have e1 := hnew (i + 1) hi
